@@ -62,6 +62,8 @@ pub struct HubState {
     pub conns: HashSet<(String, String)>,
     /// peers that silently drop everything addressed to them (unresponsive)
     pub silent: HashSet<String>,
+    /// addresses where a dial never completes (a host that drops packets): only the dialler's own timeout ends it
+    pub blackholes: HashSet<String>,
     pub frames: Vec<Frame>,
     /// raw /rr/ frames (from, to, bytes) for the request/response driver
     pub rr_tap: Vec<(String, String, Vec<u8>)>,
@@ -92,6 +94,7 @@ impl Hub {
                 id2addr: HashMap::new(),
                 conns: HashSet::new(),
                 silent: HashSet::new(),
+                blackholes: HashSet::new(),
                 frames: Vec::new(),
                 rr_tap: Vec::new(),
                 seq: 0,
@@ -112,6 +115,10 @@ impl Hub {
     /// Record a connection between two endpoints (for connections the harness opens "from outside").
     pub fn link(&self, a: &str, b: &str) {
         self.st.lock().expect("hub").conns.insert(pair(a, b));
+    }
+
+    pub fn add_blackhole(&self, addr: &str) {
+        self.st.lock().expect("hub").blackholes.insert(addr.to_string());
     }
 
     pub fn set_silent(&self, id: &str, on: bool) {
@@ -265,6 +272,11 @@ impl VerifNet for Hub {
     }
 
     async fn connect(&self, from: &str, from_addr: &str, address: &str) -> Result<String, String> {
+        let hole = self.st.lock().expect("hub").blackholes.contains(address);
+        if hole {
+            tokio::time::sleep(Duration::from_secs(10_000_000)).await;
+            return Err("no answer".into());
+        }
         let (target, ep) = {
             let mut s = self.st.lock().expect("hub");
             let Some(id) = s.addr2id.get(address).cloned() else {
@@ -308,12 +320,16 @@ pub fn addr_for(i: usize) -> String {
 }
 
 pub async fn spawn_real(hub: &Arc<Hub>, id: &str, addr: &str, request_timeout: Duration, k: usize) -> Result<RealNode, String> {
+    spawn_real_ct(hub, id, addr, request_timeout, k, 1).await
+}
+
+pub async fn spawn_real_ct(hub: &Arc<Hub>, id: &str, addr: &str, request_timeout: Duration, k: usize, conn_mult: u32) -> Result<RealNode, String> {
     let t = Arc::new(TransportHandle::verif_new_in_memory(
         id.to_string(),
         id.to_string(),
         addr.to_string(),
         hub.clone() as Arc<dyn VerifNet>,
-        request_timeout,
+        request_timeout * conn_mult.max(1),
     ));
     t.start_network_listeners().await.map_err(|e| e.to_string())?;
     let mut node_config = NodeConfig::default();
@@ -371,6 +387,8 @@ pub struct ClusterSpec {
     pub request_timeout: Duration,
     pub delay_max_ms: u64,
     pub p_silent: f64,
+    /// transport connection timeout = request timeout x this factor (the dial in lookups is bounded by the smaller of the two)
+    pub conn_timeout_mult: u32,
 }
 
 /// Build a cluster of real managers (+ harness endpoints) with a seeded random topology.
@@ -380,7 +398,7 @@ pub async fn build_cluster(spec: &ClusterSpec, rng: &mut ChaCha8Rng, hub_rng: Ch
     for i in 0..spec.n_real {
         let id = hex_id(rng);
         let addr = addr_for(i + 1);
-        reals.push(spawn_real(&hub, &id, &addr, spec.request_timeout, spec.k).await?);
+        reals.push(spawn_real_ct(&hub, &id, &addr, spec.request_timeout, spec.k, spec.conn_timeout_mult).await?);
     }
     let n = spec.n_real;
     // topology over the real nodes: list of (dialer, listener)
